@@ -1,4 +1,5 @@
 import SamplyModel.Lemmas.ConvFinal
+import SamplyModel.Lemmas.ConvEntry
 /-!
 # C01 — perf.data import conserves samples
 
@@ -196,6 +197,41 @@ theorem C01_conservation (cfg : Config) (rs : List Rec) (hr : cfg.reuse = false)
   unfold accepted
   rw [List.map_map]
   rfl
+
+/-- **Conservation of samples, keyed by entry** (default options, histories inside the FORK / EXEC grammar
+`Life.grammarOk` — where the eager lifecycle `Life` is the judged reading of the record history, `C17_refines`):
+the recorded samples of the output, keyed by the *entry strings* of the thread entry that carries them
+(`pid` / `pid.1` / …, `tid` / `tid.1` / …), their time and weight, are exactly the accepted samples of the history,
+each on the entry of the process and thread **incarnation** that was current when the sample was taken
+(`acceptedInc`: the pid / tid suffixes `Life` assigns, read right after the sample's own record). So a sample
+never lands in the entry of an earlier or later incarnation of the same pid — e.g. on the wrong side of an EXEC
+(`C17_exec_splits_samples`). This is what `judgeC01` compares on samply's output inside the grammar. -/
+theorem C01_conservation_entry (cfg : Config) (rs : List Rec) (hr : cfg.reuse = false)
+    (hg : Life.grammarOk cfg.ref rs = true) :
+    List.Perm
+      ((views (run cfg rs)).flatMap (fun v => (C01_recorded v).map (fun o => (v.pid, v.tid, o.t, o.weight))))
+      ((acceptedInc cfg.ref rs).map
+        (fun a => (idStr a.pid a.psuffix, idStr a.tid a.tsuffix, a.t - cfg.ref, 1))) := by
+  obtain ⟨g, g1, g2, g3⟩ := entry_run cfg rs hr hg
+  have hsim := run_sim cfg rs
+  generalize run cfg rs = s at hsim g2 g3
+  have h1 := C01_recorded_perm s hsim.inv (fun u hu => (hsim.sok u hu).1)
+    (fun v o => (v.pid, v.tid, o.t, o.weight))
+    (fun i t w => ((entStr s i).1, (entStr s i).2, t, w))
+    (fun i te v hte hv o => by
+      have := viewOf_str hte hv
+      simp only [← this])
+  refine h1.trans ?_
+  have h2 : ((buffered s).filter (fun u => !u.synth)).map (fun u => ((entStr s u.th).1, (entStr s u.th).2, u.t, u.weight)) =
+      (projU (buffered s)).map (fun x => ((entStr s x.1).1, (entStr s x.1).2, x.2.1, x.2.2)) := by
+    unfold projU
+    rw [List.map_map]; rfl
+  rw [h2]
+  refine (g2.map _).trans (List.Perm.of_eq ?_)
+  rw [← g1, List.map_map, List.map_map]
+  apply List.map_congr_left
+  intro x hx
+  simp only [Function.comp, g3 x hx]
 
 /-- with thread reuse enabled samples may be merged into entries of earlier incarnations, but still every
     accepted sample appears exactly once at its time with weight 1 and no other recorded sample appears -/
